@@ -157,7 +157,7 @@ Example C09_example_passes_change_the_netlist :
   (length (nets (nand_synth ex_nl)), length (nets (and_inverter_synth ex_nl)),
    length (nets (two_way_concat ex_nl)), length (nets (one_bit_selects ex_nl)),
    length (nets (direct_connect_outputs ex_nl)), length (nets (two_way_fanout ex_nl)))
-  = (21, 25, 14, 15, 9, 21)%nat /\ length (nets ex_nl) = 12%nat.
+  = (21, 25, 14, 15, 10, 21)%nat /\ length (nets ex_nl) = 12%nat.
 Proof. vm_compute. split; reflexivity. Qed.
 
 Example C09_example_postconditions :
@@ -196,7 +196,9 @@ Print Assumptions C09_dco_unrepaired_wf_refuted.
 (* ===== direct_connect_outputs postcondition =====
    The repaired code repeats the pass until nothing changes.  For every
    netlist in which no net reads an Output (in particular every netlist accepted
-   by the sanity_check model) the result has no removable w-net before an Output:
+   by the sanity_check model) the result has no NON-TRUNCATING w-net before an
+   Output whose source has no other reader and an eligible (non '@'/'r') producer
+   (a truncating w-net is not redundant and is kept, repair 67971b1):
    every changing pass removes a net, so the loop reaches its fixpoint. *)
 Theorem C09_dco_post : forall nl,
   sanity_block nl = true -> post_direct_connect_outputs (direct_connect_outputs nl) = true.
